@@ -327,6 +327,7 @@ class Queue(Greenlet):
         ids = self._pool_imap('store', self.store.write, envelopes,
                               repeat(now))
         results = list(zip(envelopes, ids))
+        attempt, error = [], None
         for env, id in results:
             if not isinstance(id, BaseException):
                 # If the storage has already announced the id it is on the
@@ -334,10 +335,18 @@ class Queue(Greenlet):
                 known_ids = (self.queued_ids | self.fetching_ids |
                              self.active_ids)
                 if self.relay and id not in known_ids:
+                    # Claim every id before the first spawn: spawning into
+                    # a full relay pool blocks, and an id announced
+                    # meanwhile must not be attempted on the side.
                     self.active_ids.add(id)
-                    self._pool_spawn('relay', self._attempt, id, env, 0)
+                    attempt.append((env, id))
             elif not isinstance(id, QueueError):
-                raise id  # Re-raise exceptions that are not QueueError.
+                error = id
+                break
+        for env, id in attempt:
+            self._pool_spawn('relay', self._attempt, id, env, 0)
+        if error is not None:
+            raise error  # Re-raise exceptions that are not QueueError.
         return results
 
     def _load_all(self):
